@@ -4,6 +4,7 @@ package main
 
 import (
 	"go/token"
+	"go/types"
 	"sort"
 
 	"golang.org/x/tools/go/ssa"
@@ -93,6 +94,28 @@ func (l *Loop) detectRange() {
 					if lc, ok := isBuiltinCall(cmp.Y, "len"); ok {
 						l.IdxPhi, l.Idx, l.Over = ph, bo, lc.Common().Args[0]
 						return
+					}
+					// range over an array (or a pointer to one): the bound is the constant length, the
+					// elements are read through &arr[idx]
+					if k, ok := cmp.Y.(*ssa.Const); ok && k.Value != nil {
+						for _, r := range *bo.Referrers() {
+							if ix, ok := r.(*ssa.Index); ok && ix.Index == ssa.Value(bo) {
+								if arr, ok := ix.X.Type().Underlying().(*types.Array); ok && arr.Len() == k.Int64() {
+									l.IdxPhi, l.Idx, l.Over = ph, bo, ix.X
+									return
+								}
+							}
+							ia, ok := r.(*ssa.IndexAddr)
+							if !ok || ia.Index != ssa.Value(bo) {
+								continue
+							}
+							if pt, ok := ia.X.Type().Underlying().(*types.Pointer); ok {
+								if arr, ok := pt.Elem().Underlying().(*types.Array); ok && arr.Len() == k.Int64() {
+									l.IdxPhi, l.Idx, l.Over = ph, bo, ia.X
+									return
+								}
+							}
+						}
 					}
 				}
 			}
